@@ -6,6 +6,7 @@ import re
 import subprocess
 
 import common
+import jsoncorr
 import corpus
 import gen
 from props import shared
@@ -19,7 +20,14 @@ META = {
     "claim": "Proved on the Gallina models for ALL byte strings, ALL read schedules and ALL detection behaviours: the input handle "
              "hands the format module the slice d or a reader whose stream is exactly d (contents and order of what reads return "
              "never depend on the schedule). For MessagePack the two document loops (size calculator + slice decode vs sequential "
-             "decode) are modelled byte-exactly and diffed against the implementation (C18 engine). The oracle compares "
+             "decode) are modelled byte-exactly, diffed against the implementation and PROVED to agree for every byte string (same "
+             "documents, same events, same verdict; on failure the slice output is a prefix of the reader output). For JSON, "
+             "serde_json's reader as xt drives it (number grammar and u64/i64/f64 classification with exact decimal->binary64 "
+             "rounding, strings and all escape forms, comma/colon rules, recursion limit) and xt's two JSON loops are modelled, "
+             "diffed against the implementation (JSON->MessagePack, bytes and verdict, both modes) and PROVED to agree for every "
+             "UTF-8-valid byte string outside the known class K-C02-json-adjacent-scalars (formalised as 'the slice loop stops "
+             "with trailing characters', with a witness lemma on which the property does fail); inside the class and for invalid "
+             "UTF-8 the slice output is proved to be a prefix of the reader output. The oracle compares "
              "translate_slice with translate_reader under 1-byte, fixed, random and adversarially cut schedules for every token "
              "sequence up to length 5/4/4 (thorough 6/5/5) over a JSON/YAML/MessagePack alphabet, and for the corpus, its "
              "mutations, truncations and splices, generated documents and random bytes, for each explicit source format and "
@@ -32,7 +40,8 @@ META = {
     "trusted_base": [
         "Coq 8.16.1 kernel (coqc, full .vo build); no axioms",
         "hand-written Gallina models InputModel.v / DetectModel.v (input handle, detection order) tied to the code by C09's handle "
-        "correspondence; MsgpackModel.v tied by C18's correspondence",
+        "correspondence; MsgpackModel.v tied by the MessagePack correspondence; JsonModel.v tied by the JSON correspondence "
+        "(tools/jsoncorr.py: token sequences, number/string spellings, nesting, generated streams, mutations)",
         "third-party parsers' slice/reader agreement: observed by the exhaustive token-sequence differential (harness `tokens`) and "
         "the session oracle",
         "harness/src/tokens.rs, session.rs, util.rs (SchedReader), tools/*.py",
@@ -206,6 +215,7 @@ def run(outcome, tier, seed):
     run_tokens(outcome, tier, seed)
     if outcome.hooks_available:
         shared.msgpack_correspondence(outcome, tier, seed)
+    jsoncorr.correspondence(outcome, tier, seed)
     run_sessions(outcome, tier, seed)
     # every listed finding: does its witness still reproduce?
     for k in common.load_known("C02"):
